@@ -118,7 +118,7 @@ class Runner:
         aborted = (res.rc != 0) or not finished
         if aborted:
             cls, line = classify_abort(res)
-            if baseline is not None and "TracingError" not in cls:
+            if baseline is not None and ("TracingError" not in cls or "Deadlock detected" in (res.err or "")):
                 ok = baseline()
                 if ok is None:
                     ctx.inconclusive("%s watchdog (baseline without tracing)" % kind)
@@ -185,7 +185,7 @@ class Runner:
         def baseline():
             c2 = [c for c in cmd if not c.startswith("--cfg=tracing")]
             r2 = proc.run(c2, stdin=text, timeout=300)
-            return None if r2.timed_out else (r2.rc == 0 and "END " in (r2.out or ""))
+            return None if r2.timed_out else (r2.rc == 0 and "END " in (r2.out or "") and "Deadlock detected" not in (r2.err or ""))
         return self.judge(kind, w, res, trace, "END " in (res.out or ""), baseline)
 
     # ---- MPI -------------------------------------------------------------------------------------------------
